@@ -37,6 +37,7 @@ claim("C12", "model_checking", "FeatureModel.tla: Reset then ResetAll in subscri
 claim("C13", "model_checking", "Reward lists as observer records; sum = -makespan / -idle time and one non-positive reward per dispatch as invariants and as monitor predicates on every logged state.", N_D, T_D, "5/C13")
 claim("C16", "model_checking", "Graphs.tla defines node lists and typed edge sets of the five builders and the solved graph; TLC proves acyclicity and longest path = makespan for every dispatcher-built complete schedule of the family; the real builders' graphs are compared node by node and edge by edge, real solved graphs (dispatcher and CP-SAT schedules) judged by TLC's own Acyclic/LongestPath on the logged edges.", N_D, T_D, "5/C16")
 claim("C17", "model_checking", "GraphModel.tla: residual removals as a state variable driven by the IsCompleted record, invariants per builder/options incl. second episodes; the real updater's removed mask, node set and edge list after every call judged by the same predicates.", N_D, T_D, "5/C17")
+claim("C18", "model_checking", "Env.tla: legal decisions, declared spaces and what an observation must be given dispatcher/composite/residual records; TLC proves legal decisions lie in the declared action space over the family (the [J, M] variant is refuted); real single- and multi-instance environments are driven through episodes with injected invalid decisions and every observation/reward/flag is judged by the monitor.", N_D + " Gymnasium's contains() is trusted for membership.", T_D, "5/C18")
 
 
 def build(registered):
